@@ -135,6 +135,8 @@ for _n in (2, 3):
     A_HARNESSES.append({"op": "batch.align", "model": "ZNCC", "n": _n})
     A_HARNESSES.append({"op": "group.average", "model": "-", "n": _n + 1})
 A_HARNESSES.append({"op": "average-chunked", "model": "-", "n": 3})
+# the simulated loader: projections with noise, back-projected per molecule (its noise must be a function of the molecule, not of the run)
+A_HARNESSES.append({"op": "mock.asnumpy", "model": "-", "n": 1})
 A_HARNESSES.append({"op": "classify", "model": "-", "n": 4})
 
 
@@ -178,6 +180,11 @@ def _a_body(h):
             b.add_tomogram(tomo2, mole.subset(slice(0, 2)), image_id=1)
             out = b.align(tm, max_shifts=1.2, alignment_model=_cls(mname), tilt=TILT)
             return [out.molecules.pos, out.molecules.features.select(["score", "image-id"]).to_numpy()]
+        if op.startswith("mock."):
+            from acryo import MockLoader
+
+            mk = MockLoader(tm[:5, 1:6, :5].copy(), mole.translate([-7.0, -7.5, -8.0]), noise=0.4, degrees=[-45.0, -15.0, 15.0, 45.0], order=1)
+            return np.asarray(mk.asnumpy()) if op == "mock.asnumpy" else np.asarray(mk.average())
         if op == "group.average":
             avg = ld.groupby("g").average()
             return [np.asarray(avg[k]) for k in sorted(avg, key=str)]
@@ -229,7 +236,7 @@ def _run_a(case):
             nexec, ndev, ntrans, maxpoints = nexec + n2, ndev + d2, ntrans + t2, max(maxpoints, m2)
             completed = f"deviations<={fallback[1:]}" + ("(capped)" if capped else "")
     else:
-        outcomes, nexec, ndev, ntrans, maxpoints, example, capped = sweep(int(mode[1:]), 20000)
+        outcomes, nexec, ndev, ntrans, maxpoints, example, capped = sweep(int(mode[1:]), case.get("dcap", 20000))
         completed = f"deviations<={mode[1:]}" + ("(capped)" if capped else "")
     capped = bool(getattr(sd.explore, "capped", False))
     if example is not None:
@@ -701,6 +708,10 @@ def cases(tier, seed):
         else:
             mode = "d1" if tier == "quick" else "d2"
         if tier == "quick" and h["op"] == "align-rot" and h["n"] == 3:
+            continue
+        if h["op"].startswith("mock."):
+            # ~70 heavy tasks per run: single deviations only, capped in the quick tier (the cap is reported)
+            out.append({"family": "a", "harness": h, "mode": "d1", "dcap": 200 if tier == "quick" else 20000})
             continue
         out.append({"family": "a", "harness": h, "mode": mode, "cap": 400 if tier == "quick" else 3000, "fallback": "d1" if tier == "quick" else "d2"})
     # unreduced cross-check on 2 molecules (every plumbing task is a choice too)
